@@ -1019,6 +1019,67 @@ def process_violations(cases, obs, rng, n=400):
     return out, len(idx)
 
 
+HIST_OPS = ["new_version_obj", "new_version_dict", "revoke_obj", "revoke_dict", "reparse", "deepcopy", "register"]
+
+
+def history_lines(cases, obs, rng, per_type=3):
+    """one interpreter, one long history: for every observable type, ask some ids, run library operations on
+    objects and dicts of that class (new_version, revoke, parse, deepcopy, a registration), ask the same ids again;
+    finally read every class's _id_contributing_properties.  -> (lines, indices of the asked cases in `cases`)"""
+    by_type = {}
+    for i, (c, o) in enumerate(zip(cases, obs)):
+        if "id" in o and not c.get("custom") and not is_uuid4_id(c["type"], o["id"]):
+            by_type.setdefault(c["type"], []).append(i)
+    lines, asked = [], []
+    for ty in sorted(by_type):
+        idx = rng.sample(by_type[ty], min(per_type, len(by_type[ty])))
+        for i in idx:
+            lines.append(cases[i]); asked.append(i)
+        ops = list(HIST_OPS)
+        rng.shuffle(ops)
+        for k, op in enumerate(ops):
+            lines.append({"hist": {"op": op, "case": cases[idx[k % len(idx)]], "n": len(lines)}}); asked.append(None)
+        for i in idx:
+            lines.append(cases[i]); asked.append(i)
+    # and once more across all types, after every class has seen its operations
+    for ty in sorted(by_type):
+        i = rng.choice(by_type[ty])
+        lines.append(cases[i]); asked.append(i)
+    lines.append({"probe": "contrib_tables"}); asked.append(None)
+    return lines, asked
+
+
+def history_violations(cases, obs, rng, table):
+    lines, asked = history_lines(cases, obs, rng)
+    if not lines:
+        return [], 0, {}
+    res = run_cases_other_process(lines, 0)
+    out, n, ops = [], 0, {}
+    for k, (ln, i, r) in enumerate(zip(lines, asked, res)):
+        if "hist" in ln:
+            ops[r.get("hist", "?")] = ops.get(r.get("hist", "?"), 0) + 1
+        elif i is not None:
+            n += 1
+            if r.get("id") != obs[i]["id"]:
+                # the shortest history that shows it: everything before this line
+                out.append(Violation(
+                    "the id depends on what the process did before: %s in a fresh interpreter, %s after %d earlier "
+                    "library operations (new_version / revoke / parse / deepcopy / registration) in the same interpreter"
+                    % (obs[i]["id"], r.get("id") or r.get("exc"), sum(1 for x in lines[:k] if "hist" in x)),
+                    {"kind": "history", "cases": [], "lines": lines[:k + 1], "ask": cases[i]}))
+                if len(out) >= 3:
+                    break
+        elif "tables" in r and table is not None:
+            live = r["tables"]
+            diff = {ty: (table.get(ty), live.get(ty)) for ty in set(table) | set(live) if table.get(ty) != live.get(ty)}
+            if diff:
+                ty = sorted(diff)[0]
+                out.append(Violation(
+                    "%s._id_contributing_properties is %r at the end of the run, it was %r when the process started"
+                    % (ty, diff[ty][1], diff[ty][0]), {"kind": "history", "cases": [], "lines": lines, "ask": None}))
+    return out, n, ops
+
+
 def model_terms(cases, obs, hp):
     terms, idx = [], []
     for i, (c, o) in enumerate(zip(cases, obs)):
@@ -1122,7 +1183,9 @@ def check(run):
         "floats, hashes dictionaries with and without the preferred algorithms, reference lists); each object is built by "
         "the constructor, by the constructor with shuffled argument and nested dictionary orders, by parse() with shuffled "
         "orders, with other non-contributing properties, and with one contributing value changed; registered custom "
-        "observables with random property kinds and contributing lists; inputs on which _generate_id raises. The model "
+        "observables with random property kinds and contributing lists; inputs on which _generate_id raises; a sample "
+        "recomputed in a fresh interpreter under another PYTHONHASHSEED; a history stream (ids asked before and after "
+        "new_version / revoke / parse / deepcopy / registrations in one interpreter, class attributes re-read at the end). The model "
         "receives the public property values of the constructed object and must give the string whose uuid5 is the id. "
         "Non-trivial = the object was constructed (no exception).")
     meta = None
@@ -1178,6 +1241,13 @@ def check(run):
         run.coverage["other_process_cases"] = n_proc
     except RuntimeError as e:
         run.broken.append(Broken("correspondence", "second process run failed", {"error": str(e)[-800:]}))
+    try:
+        v5, n_hist, hist_ops = history_violations(cases, obs, run.rng, None if meta is None else meta["table"])
+        vio += v5
+        run.coverage["history_asks"] = n_hist
+        run.coverage["history_ops"] = hist_ops
+    except RuntimeError as e:
+        run.broken.append(Broken("correspondence", "history run failed", {"error": str(e)[-800:]}))
     for c, o in zip(cases, obs):
         run.count({"c": c["type"], "m": c["mode"], "p": c["props"], "cu": c["custom"]}, nontrivial="id" in o)
     run.coverage["distribution"] = stats
@@ -1251,6 +1321,32 @@ def gen_groups_for_type(rng, ty, start):
 
 def replay(payload):
     r = payload["replay"]
+    if r.get("kind") == "history":
+        lines = r["lines"]
+        res = run_cases_other_process(lines, 0)
+        bad = False
+        ask = r.get("ask")
+        if ask is not None:
+            fresh = run_cases([ask])[0]
+            print("replay: %s in a fresh interpreter -> %s" % (ask["type"], fresh.get("id") or fresh.get("exc")))
+            print("        after %d earlier operations in one interpreter -> %s"
+                  % (sum(1 for x in lines if "hist" in x), res[-1].get("id") or res[-1].get("exc")))
+            fails, _, _ = oracle_one(ask, res[-1])
+            for kind, what in fails:
+                print("  " + what)
+            bad = bool(fails) or res[-1].get("id") != fresh.get("id")
+        else:
+            first = run_cases_other_process([{"probe": "contrib_tables"}], 0)[0]["tables"]
+            last = res[-1].get("tables", {})
+            for ty in sorted(first):
+                if first[ty] != last.get(ty):
+                    print("replay: %s._id_contributing_properties %r -> %r" % (ty, first[ty], last.get(ty)))
+                    bad = True
+        if bad:
+            print("VIOLATION property=C06 replay=(given)")
+            return 1
+        print("no violation on this input")
+        return 0
     cases = r.get("cases") or []
     if not cases:
         print("nothing to replay (collision report)")
